@@ -144,7 +144,7 @@ Qed.
 
 (* ---- small enumeration lemmas *)
 Lemma all_slotcfg_complete : forall s, In s all_slotcfg.
-Proof. destruct s; cbn; auto. Qed.
+Proof. destruct s; cbn; auto 10. Qed.
 
 Lemma all_config_complete : forall c, In c all_config.
 Proof.
@@ -252,7 +252,7 @@ Qed.
 (* ---- getter crashes (attribute getters are outside code as well) *)
 Definition NGETS_AFF : nat := 3.     (* attribute reads on the inspected object in one run, plus one *)
 
-Definition deletable (s : slotcfg) : bool := match s with Inst | Both => true | _ => false end.
+Definition deletable (s : slotcfg) : bool := match s with Inst | Both | OwnDesc => true | _ => false end.
 
 (* the class of crash points excluded from the partial theorem: the read of the
    SECOND attribute of `attrs` raises something other than AttributeError while
@@ -321,8 +321,8 @@ Definition aff_getter_counterexamples (n : nat) (p : program) : list (N * N * na
     flat_map (fun ke : nat * exn_choice =>
       if run_get_ok c (run_aff n p c (mk_oracle (GetCrash (fst ke) (exn_id (snd ke))) [] []))
       then []
-      else [(match c_wrapped c with Absent => 0 | Inst => 1 | ClassLevel => 2 | Both => 3 end,
-             match c_signature c with Absent => 0 | Inst => 1 | ClassLevel => 2 | Both => 3 end,
+      else [(match c_wrapped c with Absent => 0 | Inst => 1 | ClassLevel => 2 | Both => 3 | OwnDesc => 4 end,
+             match c_signature c with Absent => 0 | Inst => 1 | ClassLevel => 2 | Both => 3 | OwnDesc => 4 end,
              fst ke, exn_id (snd ke))%N])
       (all_gc NGETS_AFF))
     all_config.
